@@ -9,7 +9,8 @@ from hypothesis import strategies as st
 from vlib import strategies as S
 
 KINDS = ["linear", "lattice", "lattice", "ensemble_explicit", "ensemble_random",
-         "ensemble_rtl", "ensemble_rtl", "stack_lattice", "stack_linear"]
+         "ensemble_rtl", "ensemble_rtl", "stack_lattice", "stack_linear",
+         "stack_rtl2"]
 
 
 @st.composite
@@ -47,7 +48,7 @@ def model_desc(draw, tier="quick", kinds=None):
   nf = draw(st.integers(1 if kind in ("linear", "lattice", "stack_lattice",
                                       "stack_linear") else 2,
                         4 if not big else 6))
-  same_size = kind in ("ensemble_rtl",) or draw(st.booleans())
+  same_size = kind in ("ensemble_rtl", "stack_rtl2") or draw(st.booleans())
   param = "all_vertices"
   if kind in ("lattice", "ensemble_explicit", "ensemble_random",
               "ensemble_rtl") and draw(st.integers(0, 3)) == 0:
@@ -57,7 +58,7 @@ def model_desc(draw, tier="quick", kinds=None):
   feats = []
   for i in range(nf):
     ls = base_size if same_size else draw(st.integers(2, 3))
-    f = draw(feature_desc(i, ls, allow_categorical=True))
+    f = draw(feature_desc(i, ls, allow_categorical=kind != "stack_rtl2"))
     if f["type"] == "numeric" and f["convexity"] != 0:
       f["kp_type"] = "fixed"
     feats.append(f)
@@ -101,6 +102,25 @@ def model_desc(draw, tier="quick", kinds=None):
         st.integers(0, 3)) == 0:
       a, b = draw(st.permutations(mono_feats))[:2]
       desc["dominance"] = {"dominant": a, "weak": b}
+  if kind == "stack_rtl2":
+    # calibrators (multi-unit) -> RTL(separate_outputs) -> RTL -> Linear
+    if nf >= 2 and draw(st.integers(0, 3)) > 0:
+      # both input kinds, so that some lattice can mix them
+      feats[0]["mono"] = draw(st.sampled_from([1, -1]))
+      feats[1]["mono"] = 0
+      feats[1]["clamp_min"] = feats[1]["clamp_max"] = False
+    desc["calib_units"] = draw(st.integers(1, 2))
+    slots = nf * desc["calib_units"]
+    r0 = draw(st.integers(min(2, slots), min(3, slots)))
+    n0 = draw(st.integers(2, 4))
+    while n0 * r0 < slots:
+      n0 += 1
+    desc["rtl0"] = {"num_lattices": n0, "lattice_rank": r0}
+    r1 = draw(st.integers(1, min(2, n0)))
+    n1 = draw(st.integers(1, 3))
+    while n1 * r1 < n0:
+      n1 += 1
+    desc["rtl1"] = {"num_lattices": n1, "lattice_rank": r1}
   # ensemble structure
   if kind.startswith("ensemble"):
     desc["use_linear_combination"] = draw(st.booleans())
@@ -218,6 +238,8 @@ def build_model(desc):
   tf.random.set_seed(desc["seed"])
   np.random.seed(desc["seed"])
   kind = desc["kind"]
+  if kind == "stack_rtl2":
+    return _build_rtl_stack(desc), None
   if not kind.startswith("stack"):
     cfg = model_config(desc)
     cls = {"linear": tfl.premade.CalibratedLinear,
@@ -270,8 +292,40 @@ def build_model(desc):
   return model, None
 
 
+def _build_rtl_stack(desc):
+  """The docstring example of tfl.layers.RTL: multi-unit calibrators feed an RTL
+  with separate outputs, which feeds a second RTL and an increasing Linear."""
+  import tensorflow_lattice as tfl
+  import tf_keras as keras
+  feats = desc["features"]
+  size = feats[0]["lattice_size"]
+  inputs, groups = [], {"increasing": [], "unconstrained": []}
+  for f in feats:
+    inp = keras.Input(shape=(1,))
+    inputs.append(inp)
+    cal = tfl.layers.PWLCalibration(
+        input_keypoints=[float(v) for v in f["keypoints"]],
+        units=desc["calib_units"], output_min=0.0, output_max=float(size - 1),
+        monotonicity=f["mono"], impute_missing=f["default"] is not None,
+        missing_input_value=f["default"])(inp)
+    groups["increasing" if f["mono"] != 0 else "unconstrained"].append(cal)
+  groups = {k: v for k, v in groups.items() if v}
+  rtl0 = tfl.layers.RTL(lattice_size=size, output_min=0.0,
+                        output_max=float(size - 1), separate_outputs=True,
+                        random_seed=desc["seed"], interpolation=desc[
+                            "interpolation"], **desc["rtl0"])(groups)
+  rtl1 = tfl.layers.RTL(lattice_size=size, random_seed=desc["seed"] + 1,
+                        **desc["rtl1"])(rtl0)
+  n1 = desc["rtl1"]["num_lattices"]
+  out = tfl.layers.Linear(num_input_dims=n1,
+                          monotonicities=["increasing"] * n1)(rtl1)
+  return keras.Model(inputs=inputs, outputs=out)
+
+
 def model_inputs(desc, x):
   """x: (n, num_features) float64 array -> inputs in the form the model takes."""
+  if desc["kind"] == "stack_rtl2":
+    return [x[:, j:j + 1].astype(np.float32) for j in range(x.shape[1])]
   if desc["kind"].startswith("stack"):
     return x.astype(np.float32)
   cols = []
@@ -285,7 +339,7 @@ def model_inputs(desc, x):
 
 def bounded(desc):
   """(omin, omax) the model output must respect, or (None, None)."""
-  if desc["kind"] == "stack_linear":
+  if desc["kind"] in ("stack_linear", "stack_rtl2"):
     return None, None
   return desc["omin"], desc["omax"]
 
